@@ -285,13 +285,21 @@ func corrC14(outDir string, seed uint64, tier string, replay string) *report {
 	cs := newCaseSet(outDir, "C14_key", []string{"GC.Schemes.Keys", "GC.Schemes.KeyCases"},
 		"Z * list bytes * list Z * option (bytes * Z) * option kerr", "ok_key", 4000)
 	slow := 0
+	abandoned := 0
 	try := func(a keyArgs, kind string) {
 		want := refGuard(a)
 		obs := "None"
 		if want == "" && expensive(a) {
-			// in the domain and expensive: acceptance is not executed (the theorem covers it); still sent to the model
-			rep.bump("not_executed_expensive")
-			return
+			// in the domain and expensive.  When the derivation needs time but little memory (every scheme except Argon2
+			// with a large memory cost) the call is started all the same: still running after 400 ms means that it passed
+			// every guard, which is all C14 asks; the abandoned goroutine ends with the process.  At most a handful per
+			// run (the upper ends of the exported ranges), the rest is not executed (the theorem covers it).
+			if (a.tag == 4 && (len(a.nums) < 1 || a.nums[0] > 65536)) || abandoned >= 12 || kind != "numeric_bound" {
+				rep.bump("not_executed_expensive")
+				return
+			}
+			abandoned++
+			rep.bump("expensive_started_and_abandoned")
 		}
 		t0 := time.Now()
 		err, timedOut, pan := callKey(a)
@@ -501,6 +509,39 @@ func corrC14(outDir string, seed uint64, tier string, replay string) *report {
 				a.hasOpts, a.prefix, a.optNum = true, s.prefixes[r.intn(len(s.prefixes))], s.optNums[r.intn(len(s.optNums))]
 			}
 			try(a, "combined")
+		}
+	}
+	// NT hash: NewHash's limit counts UTF-16 code units (two bytes each), whatever the UTF-8 length of the password
+	for _, n := range []int{1, 63, 64, 65, 127, 128, 129, 130, 200} {
+		for _, unit := range []struct {
+			s     string
+			units int
+		}{{"a", 1}, {"é", 1}, {"€", 1}, {"\U0001F600", 2}, {"\uFFFF", 1}} {
+			pw := strings.Repeat(unit.s, n)
+			units := unit.units * n
+			h, err := func() (h string, err error) {
+				defer func() {
+					if x := recover(); x != nil {
+						err = notePanic("nthash.NewHash", "password="+quoteShort(pw), x)
+					}
+				}()
+				return nthash.NewHash(pw)
+			}()
+			wantOK := 2*units <= nthash.MaxPasswordLength
+			if (err == nil) != wantOK {
+				rep.fail(map[string]interface{}{"password": fmt.Sprintf("%d x %q", n, unit.s), "utf16_units": units, "utf8_bytes": len(pw)},
+					map[bool]string{true: "accepted", false: fmt.Sprintf("InvalidPasswordLengthError(%d)", 2*units)}[wantOK], fmt.Sprint(h, " ", err),
+					"nthash.NewHash does not accept exactly the passwords of at most MaxPasswordLength/2 UTF-16 units")
+			} else if err != nil {
+				if e, ok := err.(nthash.InvalidPasswordLengthError); !ok || int(e) != 2*units {
+					rep.fail(map[string]interface{}{"password": fmt.Sprintf("%d x %q", n, unit.s), "utf16_units": units}, fmt.Sprintf("InvalidPasswordLengthError(%d)", 2*units), fmt.Sprintf("%T %v", err, err),
+						"nthash.NewHash rejects with another error value than the offending length")
+				}
+			} else if cerr := nthash.Check(h, pw); cerr != nil {
+				rep.fail(map[string]interface{}{"password": fmt.Sprintf("%d x %q", n, unit.s), "hash": h}, "nil", fmt.Sprint(cerr), "nthash.Check rejects the hash NewHash made from an in-domain password")
+			}
+			rep.count(fmt.Sprint("ntdomain", n, unit.s), true)
+			rep.bump("nthash_newhash_domain")
 		}
 	}
 	rep.Distribution["slow_rejections"] = slow
